@@ -662,6 +662,18 @@ func getMaybeFileNames(value json.Marshaler) []string {
 			}
 		}
 		return result
+	case MarshalerMap:
+		var result []string
+		for _, v := range value {
+			if r := getMaybeFileNames(v); len(r) > 0 {
+				if len(result) == 0 {
+					result = r
+				} else {
+					result = append(result, r...)
+				}
+			}
+		}
+		return result
 	case LazyArgumentMap:
 		var result []string
 		for k, v := range value {
